@@ -188,6 +188,10 @@ func compile(e Type, cr compresult.Type, doOut bool) (err error) {
 	return nil
 }
 
+// Compile compiles e into cr the way the read-eval loop does: a program that
+// exceeds what an instruction can address is an error, not a panic.
+func Compile(e Type, cr compresult.Type) error { return compile(e, cr, true) }
+
 func reportError(err ParserError, line string) {
 	fmt.Println(err.Message())
 	start := strings.LastIndex(line[0:err.From()], "\n")
